@@ -37,6 +37,46 @@ theorem contLoop_prefix (fix : Bool) (tokens : List Str) (file : List Str) :
     exact ⟨t :: ts ++ ws, by rw [hws]; simp⟩
   | case4 tokens line rest t ts file' h hr => exact ⟨[], by simp⟩
 
+/-- the reader never dispatches an empty command (`if (not tokens): … continue`) -/
+theorem mainLoop_nonempty (fix : Bool) (pending : List Str) (file : List Str) :
+    ∀ c ∈ mainLoop fix pending file, c ≠ [] := by
+  fun_induction mainLoop fix pending file with
+  | case1 file t ts hl ih =>
+    intro c hc
+    rcases List.mem_cons.mp hc with rfl | hc
+    · simp
+    · exact ih c hc
+  | case2 file t ts hl tokens next file' h ih =>
+    intro c hc
+    rcases List.mem_cons.mp hc with rfl | hc
+    · obtain ⟨ws, hws⟩ := contLoop_prefix fix (t :: ts) file
+      rw [h] at hws
+      simp only [List.cons_append] at hws
+      rw [hws]; simp
+    · exact ih c hc
+  | case3 => intro c hc; cases hc
+  | case4 line rest file' h ih => exact ih
+  | case5 line rest t ts file' h ih => exact ih
+
+/-- `[^ "']+` takes a whole run of plain characters: a line without blank, quote and leading `#` is one chunk -/
+theorem takeWhile_all {p : Char → Bool} : ∀ (l : Str), (∀ x ∈ l, p x = true) → l.takeWhile p = l ∧ l.dropWhile p = []
+  | [], _ => ⟨rfl, rfl⟩
+  | c :: cs, h => by
+    have hc := h c (List.mem_cons_self ..)
+    have ih := takeWhile_all cs (fun x hx => h x (List.mem_cons_of_mem _ hx))
+    simp [List.takeWhile, List.dropWhile, hc, ih.1, ih.2]
+
+theorem chunks_plain (c : Char) (cs : Str) (hc : isPlain c = true) (hh : c ≠ '#') (h : ∀ x ∈ cs, isPlain x = true) :
+    chunks (c :: cs) = [c :: cs] := by
+  have h1 : (c == '#') = false := by simpa using hh
+  have h2 : (c == '"' || c == '\'') = false := by
+    simp only [isPlain] at hc; revert hc; simp; intro a b c; exact ⟨b, c⟩
+  have h3 : (c == ' ') = false := by
+    simp only [isPlain] at hc; revert hc; simp; intro a b c; exact a
+  rw [chunks]
+  simp only [h1, h2, h3, Bool.false_eq_true, if_false]
+  obtain ⟨e1, e2⟩ := takeWhile_all cs h
+  rw [e1, e2, chunks]
 theorem inLoad_load : inLoad "load".toList = true := by decide
 
 /-- a command whose verb is not a substring of "load" is not a `load` command -/
